@@ -6,6 +6,7 @@ import CookModel.Lemmas.RoundtripQty
 import CookModel.Lemmas.RoundtripComp
 import CookModel.Lemmas.RoundtripStep
 import CookModel.Lemmas.RoundtripTimer
+import CookModel.Lemmas.RoundtripShort
 /-
   C01  Printing a recipe as Cooklang and parsing it returns that recipe.
 
@@ -464,5 +465,57 @@ example : ({ name := some [tk .word ['a'], tk .or ['|'], tk .word ['b']] } : ATi
 def C01_t5 : List Tok := [⟨.tilde, ['~'], 0⟩, ⟨.openBrace, ['{'], 1⟩, ⟨.int, ['5'], 2⟩, ⟨.closeBrace, ['}'], 3⟩]
 example : ((timerP (α := Rat) ⟨C01_t5, 0, ⟨0⟩, toyCharSpec, #[], none⟩).2.evs.toList.map
     (fun e => match e with | .error d => d.kind | _ => "")) = ["timer-missing-unit"] := by decide
+
+/-! ### single-word components -/
+
+/-- An ingredient written without braces, `@ modifiers word [(note)]` — the name a run of word /
+    integer tokens without blanks (`salt`, `1st`), modifier characters as in the braces form,
+    optional note — standing anywhere in a block, is parsed by `ingredient()` to the ingredient
+    with that name, those modifier flags, that note, no alias, no quantity, no intermediate
+    reference; span from before `@` to the end of the word (or of the note); cursor exactly
+    after it; the state otherwise untouched: NO diagnostic, no panic.
+    `shortRestOK` is the condition on what follows, and it is necessary (examples below): the
+    next token is not a further word / integer and not `(` (unless a note was written), and no
+    `{` comes before the next `@ # ~` in the rest of the block — the parser first tries the
+    braces form with a name running across blanks, words and line ends up to the next `{`. -/
+theorem C01_single_word_roundtrip {α : Type} [Arith α] (c : AComp) (s : BP α)
+    (hwf : c.wfShort s.cs s.ext = true)
+    (A ts rest : List Tok) (hs : Spells ts (spellShortIngredient c)) (ht : s.toks = A ++ (ts ++ rest))
+    (hc : s.cur = A.length) (hrest : shortRestOK c rest = true) (hrun : RunAt (baseOff s.toks) s.toks) :
+    ∃ ing : PIngredient α,
+      ingredientP s = (some (.ingredient ⟨ing, ⟨offAt s.toks A.length, offAt s.toks (A.length + ts.length)⟩⟩),
+        { s with cur := A.length + ts.length }) ∧ IngrMatches s.cs c ing :=
+  rt_ingredientP_short c s hwf A ts rest hs ht hc hrest hrun
+
+/-- The same for cookware `# modifiers word [(note)]` (no `@` among the modifiers). -/
+theorem C01_single_word_roundtrip_cookware {α : Type} [Arith α] (c : AComp) (s : BP α)
+    (hwf : c.wfShortCookware s.cs s.ext = true)
+    (A ts rest : List Tok) (hs : Spells ts (spellShortCookware c)) (ht : s.toks = A ++ (ts ++ rest))
+    (hc : s.cur = A.length) (hrest : shortRestOK c rest = true) (hrun : RunAt (baseOff s.toks) s.toks) :
+    ∃ cw : PCookware α,
+      cookwareP s = (some (.cookware ⟨cw, ⟨offAt s.toks A.length, offAt s.toks (A.length + ts.length)⟩⟩),
+        { s with cur := A.length + ts.length }) ∧ CwMatches s.cs c cw :=
+  rt_cookwareP_short c s hwf A ts rest hs ht hc hrest hrun
+
+/-! examples: `@&-1st(fine)` followed by ` and #pan.`; `@salt` followed by ` and {x}` is rejected, and
+    indeed the parser reads the ingredient `salt and` there -/
+def C01_exShort : AComp :=
+  { mods := [.and, .minus], name := [tk .int ['1'], tk .word ['s', 't']], note := some [tk .word "fine".toList] }
+def C01_exSalt : AComp := { name := [tk .word "salt".toList] }
+example : C01_exShort.wfShort toyCharSpec C01_allExt = true ∧ C01_exSalt.wfShortCookware toyCharSpec ⟨0⟩ = true := by
+  decide
+example : shortRestOK C01_exShort [tk .ws [' '], tk .word "and".toList, tk .ws [' '], tk .hash ['#'],
+    tk .word "pan".toList, tk .openBrace ['{'], tk .closeBrace ['}']] = true := by decide
+example : shortRestOK C01_exSalt [tk .ws [' '], tk .word "and".toList, tk .ws [' '], tk .openBrace ['{'],
+    tk .word ['x'], tk .closeBrace ['}']] = false := by decide
+example : shortRestOK C01_exSalt [tk .word ['x']] = false ∧ shortRestOK C01_exSalt [tk .openParen ['(']] = false ∧
+    shortRestOK C01_exSalt [tk .dot ['.']] = true ∧ shortRestOK C01_exSalt [] = true := by decide
+def C01_saltAnd : List Tok := [⟨.at, ['@'], 0⟩, ⟨.word, "salt".toList, 1⟩, ⟨.ws, [' '], 5⟩, ⟨.word, "and".toList, 6⟩,
+  ⟨.ws, [' '], 9⟩, ⟨.openBrace, ['{'], 10⟩, ⟨.word, ['x'], 11⟩, ⟨.closeBrace, ['}'], 12⟩]
+example : (match (ingredientP (α := Rat) ⟨C01_saltAnd, 0, ⟨0⟩, toyCharSpec, #[], none⟩).1 with
+    | some (.ingredient i) => i.val.name.text == "salt and ".toList
+    | _ => false) = true := by decide
+/-- a name with a blank or a non-word token is not a single word -/
+example : ({ name := [tk .word ['a'], tk .ws [' '], tk .word ['b']] } : AComp).wfShort toyCharSpec ⟨0⟩ = false := by decide
 
 end Cook
